@@ -147,7 +147,21 @@ func c18(c *Ctx) {
 					desc = append(desc, fmt.Sprint("PANIC: ", v))
 				}
 			}()
+			dataHeavy := rng.Chance(25)
+			if dataHeavy {
+				ctx.StaticGlobal("gd")
+				coq = append(coq, "BStaticGlobal")
+				desc = append(desc, "StaticGlobal")
+			}
 			for j := 0; j < ln; j++ {
+				if dataHeavy && rng.Chance(75) {
+					off := 4 * rng.Intn(8)
+					nb := []int{1, 4, 8, 12}[rng.Intn(4)]
+					coq = append(coq, fmt.Sprintf("(BAddDatum %d %d)", off, nb))
+					desc = append(desc, fmt.Sprintf("AddDatum(%d, %d bytes)", off, nb))
+					ctx.AddDatum(off, operand.String(strings.Repeat("x", nb)))
+					continue
+				}
 				op := c18Ops(rng, (*struct {
 					hasFunc bool
 					labels  int
